@@ -230,6 +230,7 @@ class Executor:
         self.cfg = cfg or {}
         self.obligations = []
         self.facts = []
+        self.fp_defs = set()  # indexes of facts that only define the IEEE meaning of an FP result symbol
         self.fact_pcs = {}   # fact index -> path condition it was assumed under (for relevance pruning)
         self.n = 0
         self.spec = 0
